@@ -93,11 +93,11 @@ def _remove_trailing(children):
 def _valid_child_name(child_name, expected_parent):
     try:
         parent, index = child_name.rsplit('_', 1)
-        int(index)
+        index = int(index)
     except (ValueError, AttributeError):
         return False
     else:
-        if str(parent).upper() != str(expected_parent).upper():
+        if str(parent).upper() != str(expected_parent).upper() or index < 1:  # positions start from 1
             return False
         return True
 
